@@ -16,11 +16,14 @@ CFG = {
         "model lean/GeomV/C02/Model.lean (exact Rat arithmetic, four-valued float division FQ, extended-rational Bounds) is tied to "
         "/repo/{within,simplify,area,bounds,multipoint,linestring,multilinestring,polygon}.go by the correspondence run on every check: "
         "exact three-valued status, exhaustive on half-integer grids",
-        "T1: harness/cmd/c02/extract.go (go/ast, ~300 lines) regenerates lean/GeomV/C02/Gen.lean (pointSubtract, pointOnSegment, "
-        "rayIntersectsSegment) from the tree under test on every run; Ties.lean proves Gen.f = Model.f by rfl; the translation of float "
-        "division/comparison into FQ (fdiv, FQ.eq, FQ.ge) is part of the trusted base and is exercised by the correspondence run",
-        "IEEE-754 rounding is modelled, not verified: on half-integer grids (|k/2|, |k| <= 2^11) every subtraction is exact and "
-        "distinct quotients differ by far more than an ulp; this argument is checked by the exhaustive grid enumeration, not assumed",
+        "T1: harness/cmd/c02/extract.go (go/ast, ~400 lines) regenerates lean/GeomV/C02/Gen.lean (pointSubtract, pointOnSegment, "
+        "rayIntersectsSegment, (*Bounds).Empty, (*Bounds).Overlaps; and namespace GenR: the first three with every float - and / rounded by an "
+        "abstract rnd) from the tree under test on every run; Ties.lean proves Gen.f = Model.f by rfl; the translation of float "
+        "division/comparison into FQ (fdiv, fdivR, FQ.eq, FQ.ge) and of box-field comparisons into ERat.le is part of the trusted base and is "
+        "exercised by the correspondence run",
+        "IEEE-754 rounding: on the half-integer grid (|k/2|, |k| <= 2^11) PROVED (ProofsFloat.lean) for every rounding function that is monotone "
+        "and fixes the doubles m/2^40, |m| <= 2^53; that IEEE round-to-nearest is such a function is trusted. Off that grid (dyadic scales, "
+        "margin-protected floats) rounding is checked by the correspondence run, not proved",
         "harness/cmd/c02 + lean driver + lib/vcheck.py transport inputs faithfully",
     ],
     "assumptions": ["finite coordinates (NaN/±Inf are outside the exact model; -0.0 is identified with 0 and exercised by the correspondence run)",
